@@ -327,7 +327,9 @@ Definition do_flush (st : rstate) : res * rstate := (VNone, st).
 
 Inductive op :=
 | ORead (n : Z) | OReadinto (n : Z) | OSeek (o w : Z) | OTell | OClose | OWrite
-| OQuery (q : query) | OFlush.
+| OQuery (q : query) | OFlush
+| OReadintoRO.   (* readinto(b) with b not writable: TypeError from the argument conversion of the C method
+                    io.BufferedIOBase.readinto, before anything is read -- also on a closed file *)
 
 Definition step (fuel : nat) (file : list raw) (o : op) (st : rstate) : option (res * rstate) :=
   match o with
@@ -339,6 +341,7 @@ Definition step (fuel : nat) (file : list raw) (o : op) (st : rstate) : option (
   | OWrite => Some (do_write_r st)
   | OQuery q => Some (do_query q st)
   | OFlush => Some (do_flush st)
+  | OReadintoRO => Some (VExc TypeError, st)
   end.
 
 (* run a history; None as soon as one operation runs out of fuel *)
@@ -386,6 +389,7 @@ Definition ref_step (D : bytes) (o : op) (s : refst) : option (res * refst) :=
     | OClose => Some (VNone, s)
     | OQuery QClosed => Some (VBool true, s)
     | OFlush => None      (* io.BytesIO raises ValueError, BinaryZlibFile returns None: outside the property *)
+    | OReadintoRO => Some (VExc TypeError, s)
     | _ => Some (VExc ValueError, s)
     end
   else
@@ -412,6 +416,7 @@ Definition ref_step (D : bytes) (o : op) (s : refst) : option (res * refst) :=
   | OQuery QWritable => Some (VBool false, s)
   | OQuery QSeekable => Some (VBool true, s)
   | OFlush => Some (VNone, s)
+  | OReadintoRO => Some (VExc TypeError, s)
   end.
 
 Fixpoint ref_run (D : bytes) (ops : list op) (s : refst) : option (list res * refst) :=
@@ -613,7 +618,7 @@ Definition summ (b : bytes) : Z * Z :=
   end.
 
 Definition exn_code (e : exn) : Z :=
-  match e with ValueError => 1 | OtherError c => 100 + c | _ => 99 end.
+  match e with ValueError => 1 | TypeError => 2 | OtherError c => 100 + c | _ => 99 end.
 
 Definition show_res (r : res) : Z * Z * Z :=
   match r with
